@@ -1852,6 +1852,23 @@ pub async fn run_conn(ctx: Rc<Ctx>, cmds: Vec<Value>) {
                     SinkH::None => {}
                 }
             }
+            "ack_cb" => {
+                // the application registers the acknowledgement callback that non-blocking QoS 1 sends need
+                let sink = ctx.sink.borrow();
+                match &*sink {
+                    SinkH::V3(sk) => {
+                        let cx = ctx.clone();
+                        sk.publish_ack_cb(move |id, disc| cx.emit(Ev::new("ack_cb").id(i64::from(id.get())).r(i64::from(disc))));
+                    }
+                    SinkH::V5(sk) => {
+                        let cx = ctx.clone();
+                        sk.publish_ack_cb(move |ack, disc| {
+                            cx.emit(Ev::new("ack_cb").id(i64::from(ack.packet_id.get())).r(i64::from(disc)).q(i64::from(u8::from(ack.reason_code))))
+                        });
+                    }
+                    SinkH::None => {}
+                }
+            }
             #[cfg(ntex_mqtt_verif)]
             "wrb" => {
                 let on = c.get("on").and_then(Value::as_i64).unwrap_or(1) != 0;
